@@ -427,7 +427,13 @@ def queue_init_modes(ctx, qual):
         if not isinstance(n, ast.For) or not isinstance(n.target, ast.Name):
             continue
         it = expand(fn, n.iter, stores)
-        if not (isinstance(it, ast.Call) and call_name(it) == 'self.pcfg.initalize_base_structures'):
+        # self.pcfg, or the parameter it was bound from (`self.pcfg = pcfg` and pcfg is not re-bound)
+        aliases = {'self.pcfg.initalize_base_structures'}
+        for p_ in ps:
+            if any(isinstance(s_, ast.Assign) and len(s_.targets) == 1 and U(s_.targets[0]) == 'self.pcfg' and U(s_.value) == p_ for s_ in fn.body) \
+                    and not stores.get(p_):
+                aliases.add(p_ + '.initalize_base_structures')
+        if not (isinstance(it, ast.Call) and call_name(it) in aliases):
             continue
         tv = n.target.id
         if any(isinstance(x, (ast.Break, ast.Return)) for b in n.body for x in ast.walk(b)):
